@@ -136,14 +136,14 @@ func (Prop) Generate(r *fw.Rand, tier string) []fw.Case {
 // ---- mocks ----
 
 type owner struct {
-	outcome    string
-	gate       chan struct{} // closed to let the owner's blocking call proceed
-	done       chan struct{} // closed when the owner's last scripted call returned
-	doneOnce   sync.Once
-	mu         sync.Mutex
-	stored     bool
-	hhCalls    int
-	hhAccepted bool
+	outcome     string
+	gate        chan struct{} // closed to let the owner's blocking call proceed
+	done        chan struct{} // closed when the owner's last scripted call returned
+	doneOnce    sync.Once
+	mu          sync.Mutex
+	stored      bool
+	hhCalls     int
+	hhAccepted  bool
 	directCalls int
 }
 
